@@ -192,7 +192,7 @@ def rule_R3(ctx, prj):
     want = {"codelimit.__main__:scan": "exclude", "codelimit.__main__:check": "exclude", "codelimit.common.Configuration:Configuration.load": '"exclude"'}
     for q, what in want.items():
         f2 = prj.func(q)
-        feeds = [n for ff, n, k in writes if ff is f2 and k == "accumulate"]
+        feeds = [n for ff, n, k in writes if ff == f2 and k == "accumulate"]
         if not feeds:
             ctx.viol("R3", f"{f2.local}/exclude-source", f2.site(), f"{f2.local} no longer feeds its {what} value into Configuration.exclude")
 
